@@ -736,7 +736,7 @@ static void run_search(uint64_t seed, long streams)
    low-rate switches, CELT/hybrid onsets after digital silence from low-complexity encoders (inter-coded onsets),
    plus a few steady-state streams and a loss + FEC decode. */
 typedef struct { int mode, bw, bitrate, nframes; } cseg;   /* mode 0 = OPUS_AUTO with OPUS_SET_BANDWIDTH(bw) */
-typedef struct { const char *name; int Fs, ch, app, dur10, cx, fec, lose_at, sig; cseg seg[4]; } cstream;
+typedef struct { const char *name; int Fs, ch, app, dur10, cx, fec, lose_at, sig; cseg seg[8]; } cstream;
 #define SEG_S(n) {MODE_SILK_ONLY, OPUS_BANDWIDTH_WIDEBAND, 20000, n}
 #define SEG_H(n) {MODE_HYBRID, OPUS_BANDWIDTH_FULLBAND, 32000, n}
 #define SEG_C(n) {MODE_CELT_ONLY, OPUS_BANDWIDTH_FULLBAND, 48000, n}
@@ -778,12 +778,86 @@ static const cstream CORPUS[] = {
    ONSET("on_celt_fb_5_m_c0",   48000, 1,  50, 0, MODE_CELT_ONLY, OPUS_BANDWIDTH_FULLBAND, 80000, 44),
    ONSET("on_hyb_fb_20_m_c2",   48000, 1, 200, 2, MODE_HYBRID,    OPUS_BANDWIDTH_FULLBAND, 36000, 11),
    ONSET("on_hyb_swb_10_m_c1",  48000, 1, 100, 1, MODE_HYBRID,    OPUS_BANDWIDTH_SUPERWIDEBAND, 32000, 22),
+   /* ---- boundary-exciting streams: one short stream per decoder-side clamp / saturation / state-clearing path ----
+      bandwidth ladders inside one continuous CELT / hybrid / SILK run, mono and stereo separately (band-state clearing
+      "in case start or end were to change", celt_decoder.c; decoder_set_fs / resampler re-init on the SILK side), with a
+      stationary tonal signal so that the frame after widening is inter-coded */
+#define CB(bw, n) {MODE_CELT_ONLY, bw, 64000, n}
+#define HB(bw, n) {MODE_HYBRID, bw, 40000, n}
+#define SB(bw, r, n) {MODE_SILK_ONLY, bw, r, n}
+   {"bwl_celt_m",    48000, 1, OPUS_APPLICATION_RESTRICTED_LOWDELAY, 200, 10, 0, -1, 3, {CB(OPUS_BANDWIDTH_FULLBAND, 3), CB(OPUS_BANDWIDTH_SUPERWIDEBAND, 2), CB(OPUS_BANDWIDTH_FULLBAND, 3), CB(OPUS_BANDWIDTH_WIDEBAND, 2), CB(OPUS_BANDWIDTH_FULLBAND, 3)}},
+   {"bwl_celt_m_c3", 48000, 1, OPUS_APPLICATION_AUDIO, 100, 3, 0, -1, 3, {CB(OPUS_BANDWIDTH_FULLBAND, 4), CB(OPUS_BANDWIDTH_NARROWBAND, 3), CB(OPUS_BANDWIDTH_SUPERWIDEBAND, 4), CB(OPUS_BANDWIDTH_WIDEBAND, 3), CB(OPUS_BANDWIDTH_FULLBAND, 5)}},
+   {"bwl_celt_s",    48000, 2, OPUS_APPLICATION_RESTRICTED_LOWDELAY, 200, 10, 0, -1, 3, {CB(OPUS_BANDWIDTH_FULLBAND, 2), CB(OPUS_BANDWIDTH_SUPERWIDEBAND, 1), CB(OPUS_BANDWIDTH_FULLBAND, 2), CB(OPUS_BANDWIDTH_NARROWBAND, 1), CB(OPUS_BANDWIDTH_FULLBAND, 2)}},
+   {"bwl_hyb_m",     48000, 1, OPUS_APPLICATION_VOIP, 200, 10, 0, -1, 3, {HB(OPUS_BANDWIDTH_FULLBAND, 2), HB(OPUS_BANDWIDTH_SUPERWIDEBAND, 2), HB(OPUS_BANDWIDTH_FULLBAND, 2), HB(OPUS_BANDWIDTH_SUPERWIDEBAND, 1), HB(OPUS_BANDWIDTH_FULLBAND, 2)}},
+   {"bwl_hyb_s",     48000, 2, OPUS_APPLICATION_VOIP, 100, 5, 0, -1, 3, {HB(OPUS_BANDWIDTH_FULLBAND, 4), HB(OPUS_BANDWIDTH_SUPERWIDEBAND, 3), HB(OPUS_BANDWIDTH_FULLBAND, 4)}},
+   {"bwl_silk_m",    16000, 1, OPUS_APPLICATION_VOIP, 200, 10, 0, -1, 1, {SB(OPUS_BANDWIDTH_NARROWBAND, 12000, 2), SB(OPUS_BANDWIDTH_MEDIUMBAND, 16000, 1), SB(OPUS_BANDWIDTH_WIDEBAND, 20000, 2), SB(OPUS_BANDWIDTH_MEDIUMBAND, 16000, 1), SB(OPUS_BANDWIDTH_NARROWBAND, 12000, 2)}},
+   {"bwl_silk_s",    16000, 2, OPUS_APPLICATION_VOIP, 200, 10, 0, -1, 1, {SB(OPUS_BANDWIDTH_WIDEBAND, 30000, 2), SB(OPUS_BANDWIDTH_NARROWBAND, 20000, 2), SB(OPUS_BANDWIDTH_WIDEBAND, 30000, 2)}},
+   /* pitch extremes: lags at the 18 ms maximum (clamp in silk_decode_pitch) and at the 2 ms minimum; LTP at its strongest */
+   {"pitch_lo_nb",    8000, 1, OPUS_APPLICATION_VOIP, 200, 10, 0, -1, 4, {SB(OPUS_BANDWIDTH_NARROWBAND, 14000, 12)}},
+   {"pitch_lo_wb",   16000, 1, OPUS_APPLICATION_VOIP, 200, 10, 0, -1, 4, {SB(OPUS_BANDWIDTH_WIDEBAND, 24000, 9)}},
+   {"pitch_lo_mb_10", 12000, 1, OPUS_APPLICATION_VOIP, 100, 10, 0, -1, 4, {SB(OPUS_BANDWIDTH_MEDIUMBAND, 18000, 16)}},
+   {"pitch_hi_wb",   16000, 1, OPUS_APPLICATION_VOIP, 200, 10, 0, -1, 5, {SB(OPUS_BANDWIDTH_WIDEBAND, 24000, 6)}},
+   {"pf_celt_10_m",  48000, 1, OPUS_APPLICATION_AUDIO, 100, 10, 0, -1, 5, {CB(OPUS_BANDWIDTH_FULLBAND, 10)}},
+   /* hard-panned full-scale stereo: SAT16 of mid +/- side in silk_stereo_MS_to_LR, stereo prediction at its extremes */
+   {"pan_r_silk_s",  16000, 2, OPUS_APPLICATION_VOIP, 200, 10, 0, -1, 6, {SB(OPUS_BANDWIDTH_WIDEBAND, 40000, 6)}},
+   {"pan_l_silk_s",   8000, 2, OPUS_APPLICATION_VOIP, 200, 10, 0, -1, 7, {SB(OPUS_BANDWIDTH_NARROWBAND, 24000, 5)}},
+   {"pan_r_hyb_s",   48000, 2, OPUS_APPLICATION_VOIP, 200, 10, 0, -1, 6, {HB(OPUS_BANDWIDTH_FULLBAND, 5)}},
+   {"pan_l_celt_s",  48000, 2, OPUS_APPLICATION_AUDIO, 100, 10, 0, -1, 7, {CB(OPUS_BANDWIDTH_FULLBAND, 6)}},
+   /* energy extremes: full-scale clipped material (energy ceilings, SILK gain maximum, de-emphasis / output saturation)
+      and +/-1 LSB material with digital silence (energy floors, -28 dB clamp, SILK gain minimum) */
+   {"fs_celt_m",     48000, 1, OPUS_APPLICATION_AUDIO, 200, 10, 0, -1, 8, {CB(OPUS_BANDWIDTH_FULLBAND, 4)}},
+   {"fs_celt_s_5",   48000, 2, OPUS_APPLICATION_AUDIO,  50, 10, 0, -1, 8, {CB(OPUS_BANDWIDTH_FULLBAND, 10)}},
+   {"fs_silk_m",     16000, 1, OPUS_APPLICATION_VOIP, 200, 10, 0, -1, 8, {SB(OPUS_BANDWIDTH_WIDEBAND, 30000, 4)}},
+   {"fs_hyb_m",      48000, 1, OPUS_APPLICATION_VOIP, 200, 10, 0, -1, 8, {HB(OPUS_BANDWIDTH_FULLBAND, 4)}},
+   {"quiet_celt_m",  48000, 1, OPUS_APPLICATION_AUDIO, 200, 10, 0, -1, 9, {CB(OPUS_BANDWIDTH_FULLBAND, 8)}},
+   {"quiet_silk_s",  16000, 2, OPUS_APPLICATION_VOIP, 200, 10, 0, -1, 9, {SB(OPUS_BANDWIDTH_WIDEBAND, 20000, 8)}},
 };
 static void gen_corpus_audio(int kind, uint64_t seed, int Fs, int ch, long n, opus_int16 *x)
 {
    vrng r; long i; double ph = 0, f0 = 140; uint64_t ns = seed * 2654435761ULL + 12345;
    r.s = seed;
    if (kind == 0) { gen_audio(&r, Fs, ch, n, x); return; }
+   if (kind >= 3) {     /* boundary-exciting signals */
+      double p1 = 0;
+      for (i = 0; i < n; i++) {
+         double s = 0, nz, l, rr, t = (double)i / n; int h;
+         ns = ns * 6364136223846793005ULL + 1442695040888963407ULL;
+         nz = ((double)(ns >> 40) / (double)(1 << 24)) - 0.5;
+         switch (kind) {
+         case 3:   /* stationary harmonic complex on 440 Hz with a flat spectrum up to 0.45 Fs */
+            p1 += 2 * M_PI * 440.0 / Fs;
+            for (h = 1; h * 440.0 < Fs * 0.45 && h <= 48; h++) s += sin(h * p1 + 0.7 * h * h);
+            s = 1500 * s + 40 * nz; break;
+         case 4:   /* voiced, pitch gliding 75 -> 50 Hz -> 62 Hz: lags up to and beyond the 18 ms maximum */
+            f0 = t < 0.6 ? 75 - 25 * (t / 0.6) : 50 + 12 * ((t - 0.6) / 0.4);
+            p1 += 2 * M_PI * f0 / Fs;
+            for (h = 1; h * f0 < Fs * 0.42 && h <= 60; h++) s += sin(h * p1) / sqrt((double)h);
+            s = 5200 * s + 60 * nz; break;
+         case 5:   /* voiced, pitch gliding 380 -> 560 Hz: lags down to the 2 ms minimum; strongly periodic */
+            f0 = 380 + 180 * t;
+            p1 += 2 * M_PI * f0 / Fs;
+            for (h = 1; h * f0 < Fs * 0.42 && h <= 20; h++) s += sin(h * p1) / h;
+            s = 9000 * s + 30 * nz; break;
+         case 6: case 7: case 8:   /* full scale, clipped */
+            f0 = 150 + 50 * sin(2 * M_PI * t * 3);
+            p1 += 2 * M_PI * f0 / Fs;
+            for (h = 1; h * f0 < Fs * 0.4 && h <= 40; h++) s += sin(h * p1 + h) / sqrt((double)h);
+            s = 16000 * s + 3000 * nz; break;
+         default:  /* 9: +/-1..2 LSB, with digital silence in the middle */
+            p1 += 2 * M_PI * 300.0 / Fs;
+            s = (t > 0.4 && t < 0.6) ? 0 : 1.6 * sin(p1) + 1.2 * nz; break;
+         }
+         if (s > 32767) s = 32767;
+         if (s < -32768) s = -32768;
+         l = rr = s;
+         if (kind == 6) { l = 0; rr = 0.97 * s; }
+         if (kind == 7) { l = 0.97 * s; rr = 0; }
+         if (kind == 8 && ch == 2) rr = -s > 32767 ? 32767 : -s;
+         if (ch == 1) x[i] = (opus_int16)floor(s + 0.5);
+         else { x[2 * i] = (opus_int16)floor(l + 0.5); x[2 * i + 1] = (opus_int16)floor(rr + 0.5); }
+      }
+      return;
+   }
    for (i = 0; i < n; i++) {
       double s = 0, nz, t_ms = 1000.0 * i / Fs; int h, on = 1;
       if (kind == 2) on = (t_ms >= 20.0 && t_ms < 100.0) || t_ms >= 160.0;
@@ -811,13 +885,13 @@ static void run_corpusgen(const char *dir)
       int nm[3] = {0, 0, 0}, nred = 0;
       OpusEncoder *e = opus_encoder_create(c->Fs, c->ch, c->app, &err);
       OpusDecoder *d = opus_decoder_create(48000, c->ch, &err);
-      for (sg = 0; sg < 4; sg++) nframes += c->seg[sg].nframes;
+      for (sg = 0; sg < 8; sg++) nframes += c->seg[sg].nframes;
       if ((long)nframes * fsz * c->ch > (long)(sizeof(audio) / sizeof(audio[0]))) { fprintf(stderr, "corpus stream %s too long\n", c->name); exit(9); }
       gen_corpus_audio(c->sig, 0xC03C03ULL + k * 7919, c->Fs, c->ch, (long)nframes * fsz, audio);
       opus_encoder_ctl(e, OPUS_SET_COMPLEXITY(c->cx)); opus_encoder_ctl(e, OPUS_SET_VBR(1));
       opus_encoder_ctl(e, OPUS_SET_INBAND_FEC(c->fec)); opus_encoder_ctl(e, OPUS_SET_PACKET_LOSS_PERC(c->fec ? 25 : 0));
       fprintf(fi, "S %s %d\n", c->name, c->ch);
-      for (sg = 0; sg < 4; sg++) {
+      for (sg = 0; sg < 8; sg++) {
          const cseg *q = &c->seg[sg];
          if (!q->nframes) continue;
          opus_encoder_ctl(e, OPUS_SET_BITRATE(q->bitrate));
